@@ -52,6 +52,37 @@ def load_repo():
     return _loaded
 
 
+def default_scorer():
+    """the scorer the library uses when the caller passes none - wherever the library keeps it (module attribute set
+    at import, or created lazily at first use, or only obtainable from the public loader)"""
+    m = load_repo()
+    sc = getattr(m, "_DEFAULT_SCORER", None)
+    if sc is not None:
+        return sc
+    for mod in (m, sys.modules.get("ctparse.loader")):
+        f = getattr(mod, "get_default_scorer", None)
+        if callable(f):
+            sc = f()
+            if sc is not None:
+                return sc
+    import datetime as _dt
+    m.ctparse("tomorrow", ts=_dt.datetime(2020, 1, 1), timeout=0)   # a lazy default is created by the first parse
+    sc = getattr(m, "_DEFAULT_SCORER", None)
+    if sc is not None:
+        return sc
+    from ctparse.loader import load_default_scorer
+    return load_default_scorer()
+
+
+def scorer_model(sc):
+    """the model object inside a naive-Bayes scorer (attribute name differs between versions)"""
+    for name in ("_model", "model"):
+        mdl = getattr(sc, name, None)
+        if mdl is not None and not callable(mdl):
+            return mdl
+    return None
+
+
 def _install_text_log(m, directory):
     """tools/vocab_audit.py: record every distinct text handed to the pattern matcher (one json string per line,
     one file per process).  Only active when QAV_TEXT_LOG names a directory; observation only."""
